@@ -330,6 +330,7 @@ func buildSchema(spec *Spec, w *world) (b *built, err error) {
 		return out
 	}
 	connPrefixes := map[string]bool{}
+	var mkConn func(parent string, f *FieldSpec) *graphql.FieldDefinition
 	mkFields := func(t *TypeSpec, withResolvers bool) map[string]*graphql.FieldDefinition {
 		out := map[string]*graphql.FieldDefinition{}
 		for i := range t.Fields {
@@ -338,6 +339,20 @@ func buildSchema(spec *Spec, w *world) (b *built, err error) {
 				fail("duplicate field %s.%s", t.Name, f.Name)
 			}
 			if f.Conn != nil {
+				out[f.Name] = mkConn(t.Name, f)
+				continue
+			}
+			def := &graphql.FieldDefinition{Type: resolveT(parseType(f.Type)), RequiredFeatures: reqSet(f.Req), Arguments: mkArgs(f.Args, t.Name+"."+f.Name)}
+			if withResolvers {
+				def.Resolve = w.resolver(t.Name, f)
+			}
+			out[f.Name] = def
+		}
+		return out
+	}
+	mkConn = func(parent string, f *FieldSpec) *graphql.FieldDefinition {
+		{
+			{
 				c := f.Conn
 				if connPrefixes[c.Prefix] || named[c.Prefix+"Connection"] != nil || named[c.Prefix+"Edge"] != nil {
 					fail("duplicate connection prefix %s", c.Prefix)
@@ -346,7 +361,7 @@ func buildSchema(spec *Spec, w *world) (b *built, err error) {
 				nodeT := parseType(c.Node)
 				nodeField := &FieldSpec{Name: "node", Type: c.Node}
 				nodeResolve := w.resolver(c.Prefix+"Edge", nodeField)
-				parent, fname, prefix := t.Name, f.Name, c.Prefix
+				fname, prefix := f.Name, c.Prefix
 				def := apifu.Connection(&apifu.ConnectionConfig{
 					NamePrefix:       c.Prefix,
 					RequiredFeatures: reqSet(f.Req),
@@ -373,18 +388,15 @@ func buildSchema(spec *Spec, w *world) (b *built, err error) {
 					w.log = append(w.log, parent+"."+fname)
 					return inner(ctx)
 				}
-				out[f.Name] = def
-				continue
+				return def
 			}
-			def := &graphql.FieldDefinition{Type: resolveT(parseType(f.Type)), RequiredFeatures: reqSet(f.Req), Arguments: mkArgs(f.Args, t.Name+"."+f.Name)}
-			if withResolvers {
-				def.Resolve = w.resolver(t.Name, f)
-			}
-			out[f.Name] = def
 		}
-		return out
 	}
 	var additional []graphql.NamedType
+	for i := range spec.Orphans {
+		def := mkConn("(orphan)", &spec.Orphans[i])
+		additional = append(additional, def.Type.(graphql.NamedType))
+	}
 	for i := range spec.Types {
 		t := &spec.Types[i]
 		switch nt := named[t.Name].(type) {
